@@ -333,7 +333,6 @@ def body_ctor_struct(inp, H, W):
     _ctor(A, E, "Mask2D(invert)", lambda mask: aa.Mask2D(mask=mask, pixel_scales=(1.0, 2.0), invert=True), mask=mask_in)
     m = aa.Mask2D(mask=mask_in.copy(), pixel_scales=(1.0, 2.0))
     m_all = aa.Mask2D.all_false(shape_native=(H, W), pixel_scales=(1.0, 2.0))
-    grid_of_mask = aa.Grid2D.from_mask(mask=m)
     for sn in (False, True):
         t = "sn%d" % sn
         for nm, vals in (("native", v), ("slim", s)):
@@ -1052,24 +1051,25 @@ def _stale_dataset_region(names, obs_name, ops, kw):
     key = {"d.grids.uniform": "grids", "d.grids.blurring": "grids", "d.convolver": "convolver"}.get(obs_name)
     if key is None:
         return False
-    x_cached, d_stale = set(), set()
+
+    def cache_key(nm):
+        q = nm.split(".", 1)[1]
+        return "grids" if q.startswith("grid") else ("convolver" if q == "convolver" else None)
+
+    x_cached, d_cached, d_stale = set(), set(), set()
     for nm in names:
-        if nm.startswith("x.grid"):
-            x_cached.add("grids")
-        elif nm == "x.convolver":
-            x_cached.add("convolver")
+        if nm.startswith("x.") and not nm.startswith("x.unmasked"):
+            x_cached.add(cache_key(nm))
         elif nm.startswith("d=x.trimmed"):
-            d_stale = set(x_cached)
+            d_stale, d_cached = set(x_cached), set()
         elif nm.startswith("d=x."):
-            d_stale = set()
+            d_stale, d_cached = set(), set()
         elif nm.startswith("d=d.trimmed"):
-            pass            # a second shallow copy keeps whatever was stale, and caches filled on d in between are stale too
+            d_stale, d_cached = d_stale | d_cached, set()      # a second shallow copy: caches filled on d in between are stale too
         elif nm.startswith("d=d."):
-            d_stale = set()
-        elif nm.startswith("d.grid"):
-            d_stale_after = "grids"
-            # reading on d caches a value computed from d's own (correct) contents; it becomes stale only by a later trim
-            pass
+            d_stale, d_cached = set(), set()
+        elif nm.startswith("d."):
+            d_cached.add(cache_key(nm))
     return key in d_stale
 
 
@@ -1354,7 +1354,7 @@ def _install_rng_stub():
 
 def _oracle_draw(kind, seed, params, shape):
     """what a draw right after np.random.seed(seed) returns - symbolic: the same uninterpreted function at state (seed, 0)"""
-    if V._CTX[0] is not None and shim.ENABLED[0] and (V.is_sym(seed) or shim.has_sym(params) or True):
+    if V._CTX[0] is not None and shim.ENABLED[0]:
         out = np.empty(shape, dtype=object)
         st = V.to_real_term(seed)
         if kind == "poisson":
